@@ -142,12 +142,19 @@ def run(cfg, w):
             elif op == "sum_over":
                 outs[sx[0]] = (a.sum_over((sx[0],)), [l for l in order if l != sx[0]])
                 outs["names"] = (a.sum_over(tuple(NAMES[l] for l in sx[-1:])), [l for l in order if l != sx[-1]])
+                if len(sx) >= 2:
+                    for pair in itertools.permutations(sx, 2):
+                        outs["two_" + "".join(pair)] = (a.sum_over(pair), [l for l in order if l not in pair])
+                if len(sx) >= 3:
+                    outs["three_rev"] = (a.sum_over(tuple(reversed(sx[:3]))), [l for l in order if l not in sx[:3]])
             elif op == "cast_to":
                 T = [l for l in "dcba" if l in sx or l == "d" or l == "a"]
                 outs["T"] = (a.cast_to(make_dimset(T, lens, dims)), T)
             elif op == "shares":
                 outs[sx[0]] = (a.get_shares_over((sx[0],)), list(order))
                 outs["all"] = (a.get_shares_over(tuple(sx)), list(order))
+                if len(sx) >= 3:
+                    outs["two_rev"] = (a.get_shares_over((sx[1], sx[0])), list(order))
             elif op == "cumsum":
                 for l in sx:
                     outs[l] = (a.cumsum(l), list(order))
